@@ -32,12 +32,18 @@ func (vc *VC) call(x ssa.Value, c *ssa.CallCommon, st *State, reach string) SV {
 	} else if mc, ok := c.Value.(*ssa.MakeClosure); ok {
 		callee = mc.Fn.(*ssa.Function)
 		key = funcKey(callee)
+		vc.curBind = closureBindings(mc)
+		defer func() { vc.curBind = nil }()
 	} else {
 		// call through a function value
+		if r, ok := vc.fnFieldCall(c, st, reach, resT); ok { // effects.go
+			return r
+		}
 		return vc.callFnValue(c, st, reach, resT)
 	}
+	vc.syncCall(callee, c, st, reach) // effects.go
 	for _, a := range c.Args {
-		args = append(args, vc.val(a))
+		args = append(args, vc.typedSV(vc.val(a), a.Type())) // w-c04: map-typed arguments usable with has()/m[k] in the callee's contract
 	}
 	con := vc.eng.CS.Contracts[key]
 	n := vc.callN[key]
@@ -75,13 +81,20 @@ func (vc *VC) applyContract(con *Contract, key string, n int, args []SV, st *Sta
 	}
 	env := vc.newEnv(st, st, nil)
 	env.local = false
+	env.ownFn = false
+	env.fvBind = vc.curBind
+	vc.curBind = nil
 	env.pkg = con.Pkg
 	for i, p := range con.Params {
 		env.vars[p] = args[i]
 	}
 	for _, r := range con.Requires {
+		if isCapturedClause(r) { // effects.go: established where the closure is created
+			continue
+		}
 		vc.obligePre(key, n, r, reach, vc.evalBool(env, r.Expr), pos)
 	}
+	vc.recordCall(key, args, st) // effects.go
 	pre := st.clone()
 	assigns := con.Assigns
 	if assigns == "" && con.Kind == "extern" {
@@ -138,6 +151,8 @@ func (vc *VC) applyContract(con *Contract, key string, n int, args []SV, st *Sta
 	}
 	penv := vc.newEnv(st, pre, nil)
 	penv.local = false
+	penv.ownFn = false
+	penv.fvBind = env.fvBind
 	penv.pkg = con.Pkg
 	penv.oldVars = env.vars
 	for k, v := range env.vars {
@@ -145,10 +160,16 @@ func (vc *VC) applyContract(con *Contract, key string, n int, args []SV, st *Sta
 	}
 	if len(parts) == 1 {
 		penv.vars["result"] = parts[0]
+		if tup, ok := resT.(*types.Tuple); ok && tup.Len() == 1 { // w-c04: map-typed results usable with has()/m[k]
+			penv.vars["result"] = vc.typedSV(parts[0], tup.At(0).Type())
+		}
 	} else if len(parts) > 1 {
 		penv.vars["result"] = res
 	}
 	for i, p := range parts {
+		if tup, ok := resT.(*types.Tuple); ok && i < tup.Len() {
+			p = vc.typedSV(p, tup.At(i).Type())
+		}
 		penv.vars[fmt.Sprintf("result.%d", i)] = p
 		if i < len(con.Results) {
 			penv.vars[con.Results[i]] = p
@@ -188,6 +209,7 @@ func (vc *VC) obligePre(key string, n int, r *Clause, reach, goal string, pos to
 }
 
 func (vc *VC) havocMatching(st *State, m string) {
+	vc.touchGhost(st, m)
 	for k := range vc.svSort {
 		if k == m || k == "G|"+m || strings.HasPrefix(k, m+"|") || strings.HasPrefix(k, "HF|"+sanitize(m)+"|") || strings.HasPrefix(k, "HS|"+sanitize(m)+"|") {
 			vc.set(st, k, vc.svSort[k], vc.fresh(k, vc.svSort[k]))
@@ -285,6 +307,14 @@ func (vc *VC) callFnValue(c *ssa.CallCommon, st *State, reach string, resT types
 		mode = vc.con.FnParams["*"]
 	}
 	vc.safety("nilfn", reach, sNot(sEq(f, "nilFn")), c.Pos())
+	if r, ok := vc.callFnIs(mode, f, args, st, reach, resT, c.Pos()); ok { // fnis.go
+		return r
+	}
+	if mode == "" {
+		if r, ok := vc.callFnPhi(c, f, st, reach, resT); ok { // fnphi.go (w-c04)
+			return r
+		}
+	}
 	if strings.HasPrefix(mode, "pure") {
 		ls := []string{f}
 		sorts := []string{"Fn"}
@@ -306,6 +336,13 @@ func (vc *VC) callFnValue(c *ssa.CallCommon, st *State, reach string, resT types
 			vc.assume("true", app("<=", a, na))
 			vc.set(st, "alloc", "Int", na)
 		}
+	} else if strings.HasPrefix(mode, "opaque") {
+		// effects.go: client callback; result unconstrained, writes nothing that existed before the call
+		a := vc.allocTerm(st)
+		na := vc.fresh("alloc", "Int")
+		vc.assume("true", app("<=", a, na))
+		vc.set(st, "alloc", "Int", na)
+		vc.eng.note("call through a function value in " + vc.key + ": fnparam opaque (assumed to write no memory that existed before the call and no ghost state)")
 	} else {
 		vc.havocAll(st)
 		vc.eng.note("call through a function value in " + vc.key + " without fnparam contract: all state havocked")
@@ -499,6 +536,12 @@ func (vc *VC) copyB(c *ssa.CallCommon, st *State, reach string) SV {
 		if s, ok := vc.val(c.Args[1]).(Sl); ok {
 			sh := vc.get(st, hsName(s.Elem, i), heapSort(srt))
 			vc.segcopy(srt, nr, dst.Off, app("select", sh, s.Ref), s.Off, n)
+			switch srt {
+			case "Int":
+				vc.assume("true", app("patch", nr, oldRow, dst.Off, app("select", sh, s.Ref), s.Off, n))
+			case "Val":
+				vc.assume("true", app("patchV", nr, oldRow, dst.Off, app("select", sh, s.Ref), s.Off, n))
+			}
 		}
 		vc.set(st, name, heapSort(srt), vc.define("H", heapSort(srt), app("store", h, dst.Ref, nr)))
 	}
